@@ -1946,17 +1946,10 @@ func (app *App) repairCascadeNode(node *mysql.Node, clusterState map[string]*nod
 	cnc := cascadeTopology[host]
 
 	if state.SlaveState == nil {
-		app.logger.Warn().Msgf("repair: current Slave/Replica Status is unknown. Blindly change master on %s to '%s'", host, cnc.StreamFrom)
-		err := app.performChangeMaster(host, cnc.StreamFrom)
-		if err != nil {
-			app.logger.Warn().Msgf("repair: failed to change master on host %s to new value %s", host, cnc.StreamFrom)
-			return
-		}
-		err = node.StartSlave()
-		if err != nil {
-			app.logger.Warn().Msgf("repair: failed to start slave %s", host)
-			return
-		}
+		// A cascade node without replication channel is a stale master and never gets here, so the
+		// status was not fetched on this iteration (some status query failed). Moving the replica
+		// blindly would skip both the stream_from resolution and the GTID check below.
+		app.logger.Warn().Msgf("repair: current Slave/Replica Status of %s is unknown, skip cascade repair on this iteration", host)
 		return
 	}
 
